@@ -293,6 +293,25 @@ func (e *Engine) callFn(st *State, x *ssa.Call, fn *ssa.Function, bind []Value, 
 		case "vpBlockedOK":
 			st.syncInt["blockedOK"] = 1
 			return true
+		case "vpQuiesce":
+			// blocks until every other goroutine is blocked or has finished (see switchThread)
+			if st.syncInt["quiesced"] == st.cur+1 {
+				st.syncInt["quiesced"] = 0
+				return true
+			}
+			st.syncInt["quiesceWait"] = st.cur + 1
+			st.fr.ip--
+			st.blockedNow = true
+			return true
+		case "vpLiveGoroutines":
+			n := 0
+			for ti, t := range st.threads {
+				if ti != st.cur && !t.done {
+					n++
+				}
+			}
+			set(ts.BVInt(64, int64(n)))
+			return true
 		case "vpSameBacking":
 			a, b := args[0].(*SliceV), args[1].(*SliceV)
 			set(ts.Bool(a.Obj != nil && a.Obj == b.Obj))
@@ -331,6 +350,16 @@ func (e *Engine) callFn(st *State, x *ssa.Call, fn *ssa.Function, bind []Value, 
 	if m, ok := models[name]; ok {
 		e.ModelsUsed[name] = true
 		return m(e, st, x, args)
+	}
+	// 3b. library models written in harness Go: vpModel_<pkg>_<Func> (same signature). Natively
+	// the real library function runs.
+	if fn.Pkg != nil && fn.Pkg != e.pkg && fn.Signature.Recv() == nil {
+		mn := "vpModel_" + strings.NewReplacer("/", "_", ".", "_").Replace(fn.Pkg.Pkg.Path()) + "_" + short
+		if target := e.pkg.Func(mn); target != nil {
+			e.ModelsUsed[name+" (harness Go model "+mn+")"] = true
+			e.enter(st, target, args, nil, xv)
+			return true
+		}
 	}
 	if fn.Pkg != e.pkg && short == "init" && len(args) == 0 {
 		return true // foreign package initialisers are not run (§2.2)
@@ -721,7 +750,21 @@ func init() {
 		setRes(st, x, nv)
 		return true
 	}
+	atomicCAS := func(e *Engine, st *State, x *ssa.Call, args []Value) bool {
+		p := args[0].(*PtrV)
+		s := e.load(st, p).(*StructV)
+		cur := s.F[len(s.F)-1].(*Term)
+		eq := e.decide(st, e.ts.Eq(cur, args[1].(*Term))) // before any mutation: forks by re-execution
+		if eq {
+			ns := &StructV{F: append([]Value(nil), s.F...)}
+			ns.F[len(ns.F)-1] = args[2]
+			e.store(st, p, ns)
+		}
+		setRes(st, x, e.ts.Bool(eq))
+		return true
+	}
 	for _, t := range []string{"Int64", "Int32", "Uint64", "Uint32"} {
+		models["(*sync/atomic."+t+").CompareAndSwap"] = atomicCAS
 		models["(*sync/atomic."+t+").Load"] = atomicLoad
 		models["(*sync/atomic."+t+").Store"] = atomicStore
 		models["(*sync/atomic."+t+").Add"] = atomicAdd
